@@ -30,7 +30,7 @@ func init() {
 		Thor:   tierCfg{Runs: 3000000, Deadline: 1500, RunMS: 60000, MinimiseS: 240},
 		Rule:   "each run draws one configuration (server mode x client protocol x suite lists and preference x versions x ClientAuth x client certificate x certificate source x tickets x record sizing x verification setting), payloads 0..200 KiB per direction with drawn write fragments and read buffers, a benign network (segmentation, latency, jitter, short reads, finite windows, read-deadline retries) and a scheduling policy; client and server (real gmtls; stdlib crypto/tls as third implementation on the TLS path) run as tasks over simnet. Oracles: policy model (Appendix A), agreement of both ends, exported keying material, byte streams, independent wire decode. distinct_nontrivial = distinct run signatures (hash of the full parameter vector, network configuration and negotiated outcome).",
 		Real:   realAll,
-		Stubs:  []string{"simnet (network)", "virtual clock", "entropy streams (Config.Rand)", "fixture PKI (OpenSSL-generated)", "stdlib crypto/tls peer (TLS path)", "reftls wire decoder (GMSSL path)"},
+		Stubs:  []string{"simnet (network)", "virtual clock", "entropy streams (Config.Rand)", "fixture PKI (OpenSSL-generated)", "stdlib crypto/tls peer (TLS path)", "reftls wire decoder (GMSSL sessions; TLS 1.2 sessions with RSA or ECDHE key exchange and AES suites)"},
 		Assume: []string{"policy model encodes only what Config's documentation and GM/T 0024 / RFC 5246 state; ambiguous combinations are 'unspecified'", "reference primitives validated against OpenSSL 3.5.6"},
 	}
 }
@@ -59,7 +59,7 @@ func init() {
 		Thor:      tierCfg{Runs: 1500000, RaceRuns: 300000, Deadline: 1200, RunMS: 90000, MinimiseS: 240},
 		Rule:      "each run draws a program (one shared sm4 cipher.Block; package-level SM2/SM3/SM4/X.509/PKCS#7 operations on separate data, optionally with the curve uninitialised; LRU session cache Get/Put; one CertPool under concurrent Verify; one established connection with 1-2 readers, 1-3 writers per side and an optional Close at a drawn instant; one server Config serving 2-5 simultaneous handshakes with ticket-key rotation and Clone), 2..32 tasks and a scheduling policy (no preemption / mean gap 2, 12, 100 yield points / PCT with 1-3 priority change points); the scheduler owns every interleaving at statement, lock, once and atomic granularity. Oracles: result == result of the same call run alone beforehand; porcupine linearizability of the cache and of each connection direction (FIFO pipe with atomic writes); Go race detector evaluated on the simulated interleaving (race build; the baton is invisible to it); deadlock and panic. distinct_nontrivial = distinct run signatures (program, task count, policy) x schedule hash among runs with at least one preemption or contended switch.",
 		Real:      realAll,
-		Stubs:     []string{"cooperative scheduler + baton (replaces the Go scheduler's choices)", "simnet", "entropy streams", "fixture PKI", "porcupine (checker)"},
+		Stubs:     []string{"cooperative scheduler + baton (replaces the Go scheduler's choices; OnSite/Boost place a concurrent call at a drawn statement)", "simnet", "entropy streams", "fixture PKI", "porcupine (checker)"},
 		Assume:    []string{"race detector's bounded shadow history can miss a race, it cannot invent one", "statement-level yields only in the listed files; elsewhere preemption happens at lock/once/atomic/network points"},
 	}
 }
@@ -72,7 +72,7 @@ func init() {
 		Thor:   tierCfg{Runs: 6000000, Deadline: 1500, RunMS: 60000, MinimiseS: 240},
 		Rule:   "each run puts one gmtls endpoint (client; server in GMSSL-only, auto-switch or TLS mode; with or without client authentication; both GM suites) against the scripted reference peer on simnet and draws a script: honest; 1-3 wire deviations at drawn message indices (wrong type, duplicate, omit, truncation with/without length adjustment, rewritten length/count bytes, rewritten handshake length, inserted application data / ChangeCipherSpec / unknown record / alerts, end of stream before or inside any record, stall, oversized record, wrong record version, warning alerts, empty records; legal: fragmentation, coalescing); hello-level content (version 0x0000..0x0400, suite lists, compression, unknown extensions; ServerHello version/suite/compression; certificate lists incl. non-EC keys); or a stall with a virtual-time read deadline. The reference peer keeps its honest transcript, so any deviation that changes handshake bytes must make the endpoint fail. Oracle: error and never complete for violations, completion + data for legal variations, no panic, endpoint returns once the peer's stream ended, timeout error at the virtual deadline. distinct_nontrivial = distinct signatures (role, script text, deviation kinds and positions) among non-honest runs.",
 		Real:   realAll,
-		Stubs:  []string{"simnet (network)", "virtual clock", "entropy streams", "fixture PKI", "reftls scripted peer (independent GM/T 0024 client and server)"},
+		Stubs:  []string{"simnet (network)", "virtual clock", "entropy streams", "fixture PKI", "reftls scripted peer (independent GM/T 0024 client and server; TLS 1.2 client and server with RSA and ECDHE_RSA key exchange, AES/SHA/curves from the Go standard library)"},
 		Assume: []string{"reftls endpoints interoperate with unmodified gmtls in both roles (honest scripts are part of every batch and must complete)"},
 	}
 }
@@ -85,7 +85,7 @@ func init() {
 		Thor:   tierCfg{Runs: 5000000, Deadline: 1500, RunMS: 60000, MinimiseS: 240},
 		Rule:   "two families. tls-auth-impostor: the scripted reference endpoint terminates the connection itself against an honest gmtls client (items S0-S12: untrusted CA, expired / not yet valid / clock skew of the verifying node across a narrow validity window, wrong name, RSA and P-256 leaves, ServerKeyExchange signed by another key / over replayed randoms from an earlier session of the same run / over another encryption certificate / omitted / malformed, no encryption key with a guessed pre-master, certificates swapped, single certificate) or an honest gmtls server under each ClientAuth policy (items C0-C9: no certificate, untrusted CA, CertificateVerify by another key / over another session's transcript / omitted, self-signed certificate under the lax policies, expired certificate, server clock skew); expected verdict per item and policy (not everything fails). tls-auth-mitm: a rewriting man in the middle between two honest gmtls endpoints changes one plaintext handshake message (byte flip, replacement by the same message of an earlier session, drop, duplicate, swap, suite stripping, ServerHello suite change, certificate substitution) or only re-fragments; oracle: never both complete with different views (messages sent vs received reconstructed from taps on both sides). distinct_nontrivial = distinct signatures (item or rewrite kind, suite, policy, direction, message index and type).",
 		Real:   realAll,
-		Stubs:  []string{"simnet (network)", "attacker tasks (impostor = reftls endpoint; rewriting relay)", "virtual clock with per-node skew", "entropy streams", "fixture PKI"},
+		Stubs:  []string{"simnet (network)", "attacker tasks (impostor = reftls endpoint, GM/T 0024 or TLS 1.2; stdlib crypto/tls as certificate-level impostor; rewriting relay)", "virtual clock with per-node skew", "entropy streams", "fixture PKI"},
 		Assume: []string{"reftls endpoints interoperate with unmodified gmtls (honest items S0/C0 in every batch)"},
 	}
 }
@@ -98,7 +98,7 @@ func init() {
 		Thor:   tierCfg{Runs: 1500000, Deadline: 1500, RunMS: 90000, MinimiseS: 240},
 		Rule:   "each run is a history of 2..6 operations between one client identity with one LRU session cache (capacity 1..3) and one or two server configurations (GMSSL or TLS mode; shared or separate ticket keys; explicit or default suite lists): connections (gmtls client), ticket-key rotations keeping or dropping the old key, restarts keeping or losing the key, suite-list / ClientAuth / tickets-enabled changes, connections to another server name (eviction), clock jumps, and - through the reference client, GMSSL - genuine tickets, tickets with a substituted byte, truncated or extended tickets and tickets whose suite is not offered. A ~60-line reference model of the resumption policy watches NewSessionTicket messages on the wire joined with the key log and decides, per connection: DidResume equal on both ends; resumed => ticket byte-identical to an issued one, its key generation still configured, suite offered and configured, client-certificate policy compatible, tickets enabled (soundness); genuine ticket + unchanged configuration with explicit suite list => resumed (completeness); resumed => same version, suite, peer identity, and the wire decodes under the ORIGINAL master secret; old-key ticket => refreshed; not resumed => silent full handshake; no panic. distinct_nontrivial = distinct history strings (operation sequences with their parameters) among histories longer than one operation.",
 		Real:   realAll,
-		Stubs:  []string{"simnet (network)", "virtual clock with jumps", "entropy streams", "fixture PKI", "reftls client (forged tickets) and decoder (resumed sessions under the original master)", "resumption policy model"},
+		Stubs:  []string{"simnet (network)", "virtual clock with jumps", "entropy streams", "fixture PKI", "reftls client (forged tickets, GMSSL and TLS 1.2) and decoder (resumed sessions under the original master)", "in-path relay damaging the server's last flight", "resumption policy model"},
 		Assume: []string{"policy model encodes DESIGN.md Appendix D; completeness demanded only for unchanged configurations with explicit suite lists, as the property states"},
 	}
 }
